@@ -383,3 +383,27 @@ func badOldParam(n int) int {
 	}
 	return n
 }
+
+// a variable that is dead at the loop head (assigned in the loop before any read, overwritten
+// after it) has no phi there: a clause naming it must not be evaluated on its pre-loop value
+func badStaleDeadVar(xs []int) int {
+	c := 7
+	n := 0
+	for i := 0; i < len(xs); i++ {
+		c = xs[i]
+		n++
+	}
+	c = 0
+	return n + c
+}
+func okLiveVarInLoop(xs []int) int {
+	c := 7
+	n := 0
+	for i := 0; i < len(xs); i++ {
+		if c == 7 {
+			n++
+		}
+		c = 7
+	}
+	return n + c
+}
